@@ -275,9 +275,34 @@ fn build(plan: &Plan) -> Built {
     let mut u = vec![];
     let mut objnum: Vec<Vec<u64>> = vec![];
     for p in 0..npeers {
+        // only the objects the plan refers to (and their ancestors) are created
+        let mut needed: BTreeSet<usize> = BTreeSet::new();
+        for spec in [&plan.srv[p], &plan.loc[p]] {
+            needed.extend(spec.sigrefs);
+            needed.extend(spec.refs_of);
+        }
+        if let Some(v) = &plan.refs_at {
+            for (q, a) in v {
+                if let (true, AtSpec::Obj(o)) = (*q == p, a) {
+                    needed.insert(*o);
+                }
+            }
+        }
+        loop {
+            let more: Vec<usize> = needed.iter().filter_map(|i| plan.objs[p][*i].parent).filter(|i| !needed.contains(i)).collect();
+            if more.is_empty() {
+                break;
+            }
+            needed.extend(more);
+        }
         let mut made: Vec<Oid> = vec![];
         let mut nums = vec![];
         for (j, o) in plan.objs[p].iter().enumerate() {
+            if !needed.contains(&j) {
+                made.push(w.i0);
+                nums.push(0);
+                continue;
+            }
             let content: BTreeMap<u64, Oid> = o.content.iter().map(|(n, s)| (*n, slots[*s])).collect();
             let parents: Vec<Oid> = o.parent.map(|i| vec![made[i]]).unwrap_or_default();
             let signer = if o.kind == "otherkey" { (p + 1) % npeers } else { p };
@@ -1153,20 +1178,20 @@ fn main() {
         work.push((format!("wit:{i}"), p));
     }
     let tampers = tamper_table();
-    let n_t = if thorough { tampers.len() as u64 * run.args.scale } else { run.args.count(25, 0) };
+    let n_t = if thorough { tampers.len() as u64 * run.args.scale } else { run.args.count(20, 0) };
     for i in 0..n_t {
         let idx = if thorough { i as usize % tampers.len() } else { Rng::for_case(seed, 20, i).below(tampers.len() as u64) as usize };
         let mut r = Rng::for_case(seed, 2, i);
         work.push((format!("tamper:{i}"), gen_tamper(&mut r, &tampers[idx])));
     }
     let delegs = deleg_table();
-    let n_d = if thorough { delegs.len() as u64 * run.args.scale } else { run.args.count(25, 0) };
+    let n_d = if thorough { delegs.len() as u64 * run.args.scale } else { run.args.count(20, 0) };
     for i in 0..n_d {
         let idx = if thorough { i as usize % delegs.len() } else { Rng::for_case(seed, 30, i).below(delegs.len() as u64) as usize };
         let mut r = Rng::for_case(seed, 3, i);
         work.push((format!("deleg:{i}"), gen_deleg(&mut r, &delegs[idx])));
     }
-    for i in 0..run.args.count(30, 300) {
+    for i in 0..run.args.count(25, 300) {
         let mut r = Rng::for_case(seed, 1, i);
         work.push((format!("rand:{i}"), gen_random(&mut r)));
     }
